@@ -102,6 +102,29 @@ def observe(obj, kind, reused=None, sibs=True):
                 low.remove(obj)
             if hit != warn and rw == warn:
                 rw = hit
+            # the same object next to a twin of equal content under another parent (one default validation of the whole
+            # document has to report both or neither), and - a Section - while it carries a resolved link to an empty Section
+            if rw == warn:
+                low.append(obj)
+                try:
+                    low2 = odml.Section(name="low2", type="t", parent=mid)
+                    twin = obj.clone()
+                    low2.append(twin)
+                    dv = Validation(doc)
+                    got = [any(e.obj is o and e.validation_id == ISSUE[kind] for e in dv.errors) for o in (obj, twin)]
+                    if got != [warn, warn]:
+                        rw = "twin:%r" % got
+                    elif kind != "values":
+                        odml.Section(name="tgt", type="t", parent=doc)
+                        obj.link = "/tgt"
+                        try:
+                            got = any(e.obj is obj and e.validation_id == ISSUE[kind] for e in Validation(doc).errors)
+                        finally:
+                            obj.link = None
+                        if got != warn:
+                            rw = "linked:%r" % got
+                finally:
+                    low.remove(obj)
         except Exception as e:
             rw = "raised:" + type(e).__name__
     return {"card": py2card(getattr(obj, ATTR[kind])), "count": count_of(obj, kind), "warn": warn, "rwarn": rw, "sibs": sibs}
